@@ -18,6 +18,7 @@ package adaptation
 
 import (
 	"fmt"
+	"maps"
 	"slices"
 	"strings"
 
@@ -802,13 +803,21 @@ func (r *result) adjustRlimits(rlimits []*POSIXRlimit, plugin string) error {
 	return nil
 }
 
-func (r *result) updateResources(reply, u *ContainerUpdate, plugin string) error {
+func (r *result) updateResources(reply, u *ContainerUpdate, plugin string) (retErr error) {
 	if u.Linux == nil || u.Linux.Resources == nil {
 		return nil
 	}
 
 	var resources *LinuxResources
 	request, id := r.request.update, u.ContainerId
+
+	// a failed update must not leave behind claims for the fields it got to before failing
+	claimed := r.owners.snapshot(id)
+	defer func() {
+		if retErr != nil {
+			r.owners[id] = claimed
+		}
+	}()
 
 	// operate on a copy: we won't touch anything on (ignored) failures
 	if request != nil && request.Container.Id == id {
@@ -1038,6 +1047,14 @@ func (ro resultOwners) ownersFor(id string) *owners {
 		ro[id] = o
 	}
 	return o
+}
+
+// snapshot returns a copy of the resource ownership recorded for a container.
+func (ro resultOwners) snapshot(id string) *owners {
+	o := *ro.ownersFor(id)
+	o.hugepageLimits = maps.Clone(o.hugepageLimits)
+	o.unified = maps.Clone(o.unified)
+	return &o
 }
 
 func (ro resultOwners) claimAnnotation(id, key, plugin string) error {
